@@ -2132,6 +2132,18 @@ func genExpandCases(r *rng, n int, tier string, cw *caseWriter) {
 			}
 		}
 	}
+	// 0b'. chains of 40 schema references: acyclic (nothing remains), through another document, and as the lead-in into a cycle
+	for _, sh := range []string{"long-chain", "long-chain-other-doc", "long-lead-in"} {
+		g := longChainGraph(sh)
+		g.analyse()
+		for _, o := range []exOpts{{}, {Abs: true, Cont: true}} {
+			c := g.call("expand_spec", o)
+			view, depth := exGoView(g, c, exRun(c), true)
+			emit(orderedMap{{"op", "expand_spec"}, {"nt", true}, {"tags", g.Tags}, {"docs", g.Docs}, {"root", g.Root}, {"opts", o},
+				{"missing", []string{}}, {"acyclic", g.Acyclic}, {"unf_depth", depth}, {"go", view}})
+			cw.count("long-chain")
+		}
+	}
 	{
 		g, cases := exNamesGraph()
 		for _, rc := range cases {
